@@ -82,7 +82,7 @@ pub fn judge(root: &Path, h: &Hist) -> Result<bool, (String, String)> {
             }
             let ks = key_for(*ki);
             // populate reproduces the shared identity of the key (so hits compare equal), or fails
-            let op = Op { kind, key: ks.clone(), val: Val::new(&ks.name, 50, *ki as u32, 17), pop: [Pop::Value, Pop::NotFound, Pop::Error][*pi as usize % 3], nosy: oi % 3 == 0 };
+            let op = Op { kind, key: ks.clone(), val: Val::new(&ks.name, 50, *ki as u32, 17), pop: [Pop::Value, Pop::NotFound, Pop::Error][*pi as usize % 3], nosy: oi % 3 == 0 , link_from: None};
             script_rng(h.fire, *ki as u64);
             let _ = exec(root, &handle, &op);
         }
